@@ -14,8 +14,9 @@
 (*       with a failed write the file bytes when it got the lock and when  *)
 (*       it exited.                                                        *)
 (*                                                                         *)
-(* A failed fsync() is not a failed write in the words of the statement:   *)
-(* both "rolled back and 111" and "complete and 0" are accepted for it.    *)
+(* A failed fsync() or close() and a short write are not failed writes in  *)
+(* the words of the statement: both "rolled back and 111" and "complete    *)
+(* and 0" are accepted for them.                                           *)
 (***************************************************************************)
 EXTENDS MailStore, Json, IOUtils, TLC
 Recs  == ndJsonDeserialize(IOEnv.RECORDS)
@@ -29,18 +30,19 @@ Next == \/ g = 0 /\ g' \in 1..G /\ k' = 0
         \/ g > 0 /\ k = 0 /\ k' \in {c \in 1..NCh : c % G = g - 1} /\ g' = g
 Spec == Init /\ [][Next]_<<g, k>>
 
+Restored(r) == IF r.after # r.before THEN "NotRestoredToPreviousLength" ELSE ""
 SingleVerdict(r) ==
-  IF r.inj = "wfail" THEN (IF r.rc # 111 THEN "WriteFailedButNoTemporaryFailureReported"
-                           ELSE IF r.after # r.before THEN "NotRestoredToPreviousLength" ELSE "")
-  ELSE IF r.inj = "fsync" /\ r.rc = 111 THEN (IF r.after # r.before THEN "NotRestoredToPreviousLength" ELSE "")
-  ELSE IF r.rc # 0 THEN "UndisturbedDeliveryFailed"
-  ELSE AppendVerdict(r.before, r.after, r.sender, r.rcpt, r.msg)
+  IF r.inj = "wfail" THEN (IF r.rc # 111 THEN "WriteFailedButNoTemporaryFailureReported" ELSE Restored(r))
+  ELSE IF r.inj = "none" THEN (IF r.rc # 0 THEN "UndisturbedDeliveryFailed" ELSE AppendVerdict(r.before, r.after, r.sender, r.rcpt, r.msg))
+  ELSE IF r.rc = 111 THEN Restored(r)            \* short write, failed fsync / close: complete or absent
+  ELSE IF r.rc = 0 THEN AppendVerdict(r.before, r.after, r.sender, r.rcpt, r.msg)
+  ELSE "UnexpectedExitCode"
 
 ConcVerdict(r) ==
   LET n    == Len(r.dels)
       dels == [i \in 1..n |-> [sender |-> r.dels[i].sender, rcpt |-> r.dels[i].rcpt, msg |-> r.dels[i].msg, ok |-> r.dels[i].rc = 0]]
   IN IF \E i \in 1..n : r.dels[i].inj = "wfail" /\ r.dels[i].rc # 111 THEN "WriteFailedButNoTemporaryFailureReported"
-     ELSE IF \E i \in 1..n : r.dels[i].inj \notin {"wfail", "fsync"} /\ r.dels[i].rc # 0 THEN "UndisturbedDeliveryFailed"
+     ELSE IF \E i \in 1..n : r.dels[i].inj = "none" /\ r.dels[i].rc # 0 THEN "UndisturbedDeliveryFailed"
      ELSE IF \E i \in 1..n : r.dels[i].rc \notin {0, 111} THEN "UnexpectedExitCode"
      ELSE IF ~NoInterleaveEv(r.ev) THEN "CallsOfDifferentDeliveriesInterleave"
      ELSE IF \E i \in 1..Len(r.rb) : r.rb[i].atend # r.rb[i].atlock THEN "NotRestoredToPreviousLength"
